@@ -390,4 +390,145 @@ theorem aqShares_row_sum {ps pys : List (Date × Date)} {len : Nat} {cont : Bool
   · right; simp [h]
   · left; exact div_self h
 
+
+/-! ### program_earned_premium -/
+
+theorem sum_replicate (n : Nat) (x : Rat) : (List.replicate n x).sum = n * x := by
+  induction n with
+  | zero => simp
+  | succ k ih => simp only [List.replicate_succ, List.sum_cons, ih]; push_cast; ring
+
+theorem sum_append_rat (a b : List Rat) : (a ++ b).sum = a.sum + b.sum := by
+  induction a with
+  | nil => simp
+  | cons x rest ih => simp only [List.cons_append, List.sum_cons, ih]; ring
+
+theorem sum_repeatEach (l : List Rat) (n : Nat) : (repeatEach l n).sum = n * l.sum := by
+  unfold repeatEach
+  induction l with
+  | nil => simp
+  | cons a rest ih =>
+    simp only [List.flatMap_cons, sum_append_rat, ih, sum_replicate, List.sum_cons]; ring
+
+theorem sum_zipWith_add : ∀ (a b : List Rat), a.length = b.length →
+    (List.zipWith (· + ·) a b).sum = a.sum + b.sum
+  | [], [], _ => by simp
+  | x :: a, y :: b, h => by
+    simp only [List.zipWith_cons_cons, List.sum_cons]
+    rw [sum_zipWith_add a b (by simpa using h)]; ring
+  | [], _ :: _, h => by simp at h
+  | _ :: _, [], h => by simp at h
+
+theorem drop_split (l : List Rat) {a b : Nat} (hab : a ≤ b) :
+    ((l.take b).drop a).sum + (l.drop b).sum = (l.drop a).sum := by
+  rw [← sum_append_rat]
+  congr 1
+  by_cases h : a ≤ l.length
+  · conv => rhs; rw [← List.take_append_drop b l]
+    rw [List.drop_append_of_le_length (by simp; omega)]
+  · have h1 : l.drop a = [] := List.drop_eq_nil_of_le (by omega)
+    have h2 : l.drop b = [] := List.drop_eq_nil_of_le (by omega)
+    have h3 : (l.take b).drop a = [] := List.drop_eq_nil_of_le (by simp; omega)
+    rw [h1, h2, h3]; rfl
+
+/-- the buckets visited by the loop cover the list exactly once -/
+theorem bounds_sum (l : List Rat) (ores size : Nat) (hores : 1 ≤ ores) (hl : l.length ≤ size) :
+    ∀ (fuel start stop : Nat), start ≤ stop → (start < stop ∨ size ≤ start) → size ≤ start + fuel →
+      ((bounds ores size fuel start stop).map (bucket l)).sum = (l.drop start).sum := by
+  intro fuel
+  induction fuel with
+  | zero =>
+    intro start stop _ _ hf
+    have : l.drop start = [] := List.drop_eq_nil_of_le (by omega)
+    simp [bounds, this]
+  | succ k ih =>
+    intro start stop hle hlt hf
+    unfold bounds
+    by_cases hs : start < size
+    · rw [if_pos hs]
+      have hlt' : start < stop := by omega
+      simp only [List.map_cons, List.sum_cons]
+      rw [ih stop (stop + ores) (by omega) (by omega) (by omega)]
+      unfold bucket
+      exact drop_split l hle
+    · rw [if_neg hs]
+      have : l.drop start = [] := List.drop_eq_nil_of_le (by omega)
+      simp [this]
+
+theorem monthlyWriting_sum (vol : Rat) (wp : List Rat) (wres : Nat) (hs : wp.sum ≠ 0) (hr : wres ≠ 0) :
+    (monthlyWriting vol wp wres).sum = vol := by
+  unfold monthlyWriting
+  rw [sum_repeatEach]
+  have : (wp.map fun w => vol * (w / wp.sum) / (wres : Rat)) = wp.map (· * (vol / wp.sum / wres)) := by
+    apply List.map_congr_left; intro w _; ring
+  rw [this, sum_map_mul_right]
+  have : (wres : Rat) ≠ 0 := by exact_mod_cast hr
+  field_simp
+
+theorem monthlyEarning_sum (ep : List Rat) (eres : Nat) (c : Bool) (hs : ep.sum ≠ 0) (hr : eres ≠ 0) :
+    (monthlyEarning ep eres c).sum = 1 := by
+  have hraw : (repeatEach (ep.map fun e => e / ep.sum / (eres : Rat)) eres).sum = 1 := by
+    rw [sum_repeatEach]
+    have : (ep.map fun e => e / ep.sum / (eres : Rat)) = ep.map (· * (1 / ep.sum / eres)) := by
+      apply List.map_congr_left; intro w _; ring
+    rw [this, sum_map_mul_right]
+    have : (eres : Rat) ≠ 0 := by exact_mod_cast hr
+    field_simp
+  unfold monthlyEarning
+  simp only
+  cases c with
+  | false => simpa using hraw
+  | true =>
+    simp only [if_true]
+    rw [sum_zipWith_add _ _ (by simp), sum_append_rat, List.sum_cons, sum_map_div]
+    simp only [List.sum_cons, List.sum_nil]
+    rw [hraw, sum_map_div, hraw]; norm_num
+
+
+theorem foldl_zipWith_sum (rows : List (List Rat)) (acc : List Rat)
+    (h : ∀ r ∈ rows, r.length = acc.length) :
+    (rows.foldl (fun acc r => List.zipWith (· + ·) acc r) acc).length = acc.length ∧
+    (rows.foldl (fun acc r => List.zipWith (· + ·) acc r) acc).sum = acc.sum + (rows.map List.sum).sum := by
+  induction rows generalizing acc with
+  | nil => simp
+  | cons r rest ih =>
+    simp only [List.foldl_cons, List.map_cons, List.sum_cons]
+    have hr : r.length = acc.length := h r (by simp)
+    have hlen : (List.zipWith (· + ·) acc r).length = acc.length := by simp [hr]
+    obtain ⟨h1, h2⟩ := ih (List.zipWith (· + ·) acc r) (fun r' hr' => by rw [hlen]; exact h r' (by simp [hr']))
+    refine ⟨h1.trans hlen, ?_⟩
+    rw [h2, sum_zipWith_add _ _ hr.symm]; ring
+
+theorem map_getElem!_range (l : List Rat) : (List.range l.length).map (fun n => l[n]!) = l := by
+  apply List.ext_getElem
+  · simp
+  · intro i h1 h2
+    simp at h1
+    simp [h1]
+
+theorem monthlyCombined_spec (mw me : List Rat) :
+    (monthlyCombined mw me).length = mw.length - 1 + me.length ∧
+    (monthlyCombined mw me).sum = mw.sum * me.sum := by
+  unfold monthlyCombined
+  simp only
+  have hrows : ∀ r ∈ (List.range mw.length).map (fun n =>
+      ((List.replicate n (0 : Rat)) ++ me ++ List.replicate (mw.length - n - 1) 0).map (mw[n]! * ·)),
+      r.length = (List.replicate (mw.length - 1 + me.length) (0 : Rat)).length := by
+    intro r hr
+    obtain ⟨n, hn, rfl⟩ := List.mem_map.mp hr
+    have : n < mw.length := by simpa using hn
+    simp; omega
+  obtain ⟨h1, h2⟩ := foldl_zipWith_sum _ _ hrows
+  refine ⟨by rw [h1]; simp, ?_⟩
+  rw [h2, sum_replicate, List.map_map]
+  have : (List.sum ∘ fun n => ((List.replicate n (0 : Rat)) ++ me ++ List.replicate (mw.length - n - 1) 0).map (mw[n]! * ·))
+      = fun n => mw[n]! * me.sum := by
+    funext n
+    simp only [Function.comp, sum_map_mul_left, sum_append_rat, sum_replicate]; ring
+  rw [this]
+  have : (List.range mw.length).map (fun n => mw[n]! * me.sum) = ((List.range mw.length).map (fun n => mw[n]!)).map (· * me.sum) := by
+    simp [List.map_map, Function.comp]
+  rw [this, sum_map_mul_right, map_getElem!_range]; ring
+
+
 end Bermuda.Units
